@@ -2,8 +2,11 @@
 // constant and the Elements getters in the real code.  The enumerator lists come from the translator
 // (.cache/gen/c20_enums.inc), so a new unit or constant is picked up without editing this file.
 #include "common.h"
+#include <algorithm>
 #include <votca/tools/constants.h>
+#define private public
 #include <votca/tools/elements.h>
+#undef private
 #include <votca/tools/unitconverter.h>
 using namespace votca::tools;
 
@@ -30,5 +33,19 @@ int main() {
            hexs(nm).c_str(), hexs(full).c_str(), hexs(sh).c_str());                                   \
   }
 #include "c20_enums.inc"
+  {
+    // covalent radii in every unit the getter offers, for every element of its table
+    Elements e;
+    e.getCovRad("H", "ang");
+    std::vector<std::string> names;
+    for (auto &kv : e.CovRad_) names.push_back(kv.first);
+    std::sort(names.begin(), names.end());
+    for (auto &n : names) {
+      std::string res[3];
+      const char *units[3] = {"ang", "nm", "bohr"};
+      for (int k = 0; k < 3; k++) { try { res[k] = dexact(e.getCovRad(n, units[k])); } catch (std::exception &) { res[k] = "nan 0"; } }
+      printf("C20 covrad %s %s %s %s\n", hexs(n).c_str(), res[0].c_str(), res[1].c_str(), res[2].c_str());
+    }
+  }
   return 0;
 }
